@@ -860,6 +860,10 @@ pub fn write_frame_header(w: &mut BitWriter, f: &FrameHeaderSpec, ih: &ImageHead
         w.bit(f.do_ycbcr);
     }
     let use_lf = f.use_lf_frame();
+    if use_lf {
+        // not signalled with use_lf_frame: they take their defaults
+        assert!(f.upsampling == 1 && f.ec_upsampling.iter().all(|&u| u == 1) && f.jpeg_upsampling == [0; 3], "use_lf_frame: upsampling and chroma subsampling cannot be signalled");
+    }
     if f.do_ycbcr && !use_lf {
         for &j in &f.jpeg_upsampling {
             w.bits(j as u64, 2);
